@@ -13,7 +13,7 @@ from mc.checks import rules_common as R
 
 PROPERTY = "C01"
 LEVEL = "exploration"
-RULE = ("cases = every ordered sequence of 1..K distinct blocks (K=3 quick, 4 thorough) over 16 .rules blocks "
+RULE = ("cases = every ordered sequence of 1..K distinct blocks (K=3 quick, 4 thorough) over 17 .rules blocks "
         "(10 categorising: contains/regex/and-not/amount/top-level variable/let/field/source/date; 2 tag-only; 1 unevaluable; 1 never-matching rule whose let: shadows a global; 1 rule reading a name only other rules bind) "
         "x 4 preambles (none, variable, description transform), plus every ordered sequence of 1..K rows over 12 legacy CSV rows "
         "(regex, lookahead, alternation, leading parenthesis, char class, amount/date/month modifiers, tag-only row, invalid regex); each file is run on 72 "
